@@ -61,6 +61,8 @@ def property_on_real(md, res):
         err = res["call_err"] or ""
         if not err.startswith(REFUSALS):
             return ("a stub is generated but PSy-layer generation for the same metadata crashes: " + err[:160])
+    if res["stub"] is not None and res.get("stub_problems"):
+        return "the generated stub is not well formed: " + "; ".join(res["stub_problems"])
     if res["stub"] is None or res["call"] is None:
         return None
     return R.compare(res["stub"], res["call"])
@@ -109,22 +111,25 @@ def check_case(chk, md, res, model, stream, stats):
             elif stub is not None and [tuple(x) for x in stub] != [tuple(x) for x in m["stub"][1]]:
                 agreed = False
                 chk.correspondence_broken("stub argument list differs from stubArgs", md, m["stub"][1], stub)
-            # documented order (general-purpose kernels): real stub vs docOrder
-            if stub is not None and m["doc"][0] == "general":
-                stats["doc_checked"] += 1
-                real_atoms = [x[0] for x in stub]
+            # documented order (general-purpose kernels): BOTH the real stub and the real call vs docOrder
+            if m["doc"][0] == "general":
                 doc_atoms = [x[0] for x in m["doc"][1]]
-                model_atoms = [x[0] for x in m["stub"][1]]
-                if real_atoms != doc_atoms:
-                    cls = [k for k, f in DOC_CLASSES.items() if f(md)]
-                    if cls and real_atoms == model_atoms:
-                        stats["doc_known:" + cls[0]] += 1
-                    else:
-                        stats["violations"] += 1
-                        if stats["violations"] <= MAX_REPORTS:
-                            chk.violation({"kind": "failing-input", "clause": "documented order", "metadata": md,
-                                           "observed": real_atoms, "expected": doc_atoms})
-                        return True
+                for side, rows, mrows in (("stub", stub, m["stub"][1]), ("call", call, m["call"][1])):
+                    if rows is None:
+                        continue
+                    stats["doc_checked_" + side] += 1
+                    real_atoms = [x[0] for x in rows]
+                    model_atoms = [x[0] for x in mrows]
+                    if real_atoms != doc_atoms:
+                        cls = [k for k, f in DOC_CLASSES.items() if f(md)]
+                        if cls and real_atoms == model_atoms:
+                            stats["doc_known:" + cls[0]] += 1
+                        else:
+                            stats["violations"] += 1
+                            if stats["violations"] <= MAX_REPORTS:
+                                chk.violation({"kind": "failing-input", "clause": "documented order", "side": side,
+                                               "metadata": md, "observed": real_atoms, "expected": doc_atoms})
+                            return True
     chk.case({"md": md, "stream": stream}, nontrivial=nontrivial, agreed=agreed)
     return False
 
@@ -140,7 +145,8 @@ def corpus():
 def run(chk):
     from collections import Counter
     stats = Counter()
-    chk.cov["rule"] = ("kernel metadata specs: corpus, then seeded random mostly-valid metadata (general-purpose "
+    chk.cov["rule"] = ("kernel metadata specs: corpus, then the systematic family mesh property x reference-element property "
+                       "subsets (43 kernels), then seeded random mostly-valid metadata (general-purpose "
                        "kernels with fields/vectors/operators/scalars/stencils/basis x shapes/reference-element/"
                        "mesh properties, CMA assembly/apply/matrix-matrix, inter-grid, domain, boundary-condition "
                        "kernels) plus a malformed stream; non-trivial = PSy layer generated and >= 2 metadata "
@@ -164,6 +170,7 @@ def run(chk):
     ncases = 300 if chk.tier == "thorough" else 45
     nbad = 60 if chk.tier == "thorough" else 8
     cases = [("corpus", md) for md in corpus()]
+    cases += [("systematic", md) for md in G.systematic_family()]
     cases += [("valid", G.gen_valid(chk.rng)) for _ in range(ncases)]
     cases += [("malformed", G.gen_malformed(chk.rng)) for _ in range(nbad)]
     results = [R.run_real(md) for _, md in cases]
@@ -206,10 +213,11 @@ def replay(payload):
     md = payload["metadata"]
     res = R.run_real(md)
     if payload.get("clause") == "documented order":
-        _, stub = real_rows(res, md)
-        real_atoms = [x[0] for x in stub] if stub else None
+        call, stub = real_rows(res, md)
+        rows = call if payload.get("side") == "call" else stub
+        real_atoms = [x[0] for x in rows] if rows else None
         print("metadata:", json.dumps(md))
-        print("real stub order:", real_atoms)
+        print("real", payload.get("side", "stub"), "order:", real_atoms)
         print("documented order:", payload["expected"])
         return 1 if real_atoms != payload["expected"] else 0
     why = property_on_real(md, res)
